@@ -337,6 +337,37 @@ func (w *World) CheckMovesTable(l *LState) {
 	}
 }
 
+// CheckVolumesTable audits the committed rows of accounts_volumes of the ledger against the fold of the committed
+// postings (C02): every pair the fold knows has its row with exactly those totals; a row the fold does not know carries
+// zeros (it was created to be locked by a balance check).
+func (w *World) CheckVolumesTable(l *LState) {
+	now := l.M.VolumesNow()
+	seen := map[[2]string]bool{}
+	for _, r := range w.Env.Sim.Rows(l.Bucket, "accounts_volumes") {
+		if r["ledger"].S != l.Name {
+			continue
+		}
+		k := [2]string{r["accounts_address"].S, r["asset"].S}
+		if seen[k] {
+			w.V("C02", "accounts_volumes holds two rows for %s %s\nhistory:\n  %s", k[0], k[1], l.History())
+		}
+		seen[k] = true
+		in, out := r["input"].N, r["output"].N
+		if in == nil || out == nil {
+			w.harness("accounts_volumes row without totals: %v", r)
+		}
+		want := now.Get(k[0], k[1])
+		if in.Cmp(want.In) != 0 || out.Cmp(want.Out) != 0 {
+			w.V("C02", "accounts_volumes holds (%s,%s) for %s %s, the fold of the committed postings is (%s,%s)\nhistory:\n  %s", in, out, k[0], k[1], want.In, want.Out, l.History())
+		}
+	}
+	for _, k := range now.Keys() {
+		if !seen[k] {
+			w.V("C02", "accounts_volumes has no row for %s %s although committed postings moved it (%s)\nhistory:\n  %s", k[0], k[1], now.Get(k[0], k[1]), l.History())
+		}
+	}
+}
+
 // groupAddress truncates an address to its first lvl segments (lvl 0 = no grouping).
 func groupAddress(addr string, lvl int) string {
 	if lvl <= 0 {
